@@ -717,22 +717,24 @@ class Lin:
         return "+".join(parts).replace("+-", "-")
 
 
-def _lin(e: ast.AST, n_names: set[str]) -> Lin:
+def _lin(e: ast.AST, n_names: set[str], env: dict | None = None, depth: int = 0) -> Lin:
     if isinstance(e, ast.Constant) and isinstance(e.value, (int, float)) and not isinstance(e.value, bool):
         return Lin(0, Fraction(e.value).limit_denominator(1000))
     if isinstance(e, ast.Name) and e.id in n_names:
         return Lin(1, 0)
+    if isinstance(e, ast.Name) and env and e.id in env and depth < 6:
+        return _lin(env[e.id], n_names, env, depth + 1)  # a local such as half = 0.5 * n
     if isinstance(e, ast.Attribute) and e.attr == "dim":
         return Lin(1, 0)
     if isinstance(e, ast.UnaryOp) and isinstance(e.op, ast.USub):
-        return _lin(e.operand, n_names).scale(-1)
+        return _lin(e.operand, n_names, env, depth + 1).scale(-1)
     if isinstance(e, ast.BinOp):
         if isinstance(e.op, ast.Add):
-            return _lin(e.left, n_names) + _lin(e.right, n_names)
+            return _lin(e.left, n_names, env, depth + 1) + _lin(e.right, n_names, env, depth + 1)
         if isinstance(e.op, ast.Sub):
-            return _lin(e.left, n_names) - _lin(e.right, n_names)
+            return _lin(e.left, n_names, env, depth + 1) - _lin(e.right, n_names, env, depth + 1)
         if isinstance(e.op, (ast.Mult, ast.Div)):
-            l, r = _lin(e.left, n_names), _lin(e.right, n_names)
+            l, r = _lin(e.left, n_names, env, depth + 1), _lin(e.right, n_names, env, depth + 1)
             if isinstance(e.op, ast.Div):
                 if r.a != 0 or r.b == 0:
                     raise NotMonomial("division by a non-constant")
@@ -795,16 +797,18 @@ def to_mono(e: ast.AST, prog: Program, fn: FunctionInfo, n_names: set[str], env:
         if isinstance(e.op, ast.Div):
             return to_mono(e.left, prog, fn, n_names, env, depth + 1).mul(to_mono(e.right, prog, fn, n_names, env, depth + 1), -1)
         if isinstance(e.op, ast.Pow):
-            return to_mono(e.left, prog, fn, n_names, env, depth + 1).power(_lin(e.right, n_names))
+            return to_mono(e.left, prog, fn, n_names, env, depth + 1).power(_lin(e.right, n_names, env))
     if isinstance(e, ast.Call):
         f = e.func
         name = f.attr if isinstance(f, ast.Attribute) else getattr(f, "id", "")
         if name == "gamma" and len(e.args) == 1:
-            return Mono(1, {f"gamma({_lin(e.args[0], n_names)})": Lin(0, 1)})
+            return Mono(1, {f"gamma({_lin(e.args[0], n_names, env)})": Lin(0, 1)})
+        if name in ("power", "pow") and len(e.args) == 2:
+            return to_mono(e.args[0], prog, fn, n_names, env, depth + 1).power(_lin(e.args[1], n_names, env))
         if name == "sqrt" and len(e.args) == 1:
             return to_mono(e.args[0], prog, fn, n_names, env, depth + 1).power(Lin(0, Fraction(1, 2)))
         if name == "factorial" and len(e.args) == 1:
-            return Mono(1, {f"factorial({_lin(e.args[0], n_names)})": Lin(0, 1)})
+            return Mono(1, {f"factorial({_lin(e.args[0], n_names, env)})": Lin(0, 1)})
         # a helper of the same class / module: inline its single return expression, parameters replaced by the arguments
         tgt = None
         if isinstance(f, ast.Attribute) and isinstance(f.value, ast.Name) and fn.cls is not None:
@@ -821,269 +825,7 @@ def to_mono(e: ast.AST, prog: Program, fn: FunctionInfo, n_names: set[str], env:
                 # only the dimension may be passed on
                 sub_n = {p for p, a in zip(params, e.args) if (isinstance(a, ast.Name) and a.id in n_names) or (isinstance(a, ast.Attribute) and a.attr == "dim")}
                 if len(sub_n) == len(params):
-                    return to_mono(rets[0].value, prog, tgt, sub_n, {}, depth + 1)
-    raise NotMonomial(f"`{ast.unparse(e)[:40]}` is not a product of powers of pi, the radius and the dimension")
-
-
-def _ball(n: Lin) -> dict[str, Lin]:
-    return {"pi": n.scale(Fraction(1, 2)), f"gamma({n.scale(Fraction(1, 2)) + Lin(0, 1)})": Lin(0, -1)}
-
-
-MEASURES = {
-    # (class, member): (coefficient, factors) - textbook: area of a disc, volume and surface of the n-ball
-    ("Circle", "area"): (Fraction(1), {"pi": Lin(0, 1), "r": Lin(0, 2)}, "pi r^2"),
-    ("Sphere", "volume"): (Fraction(1), dict(_ball(Lin(1, 0)), r=Lin(1, 0)), "pi^(n/2) / Gamma(n/2 + 1) * r^n"),
-    ("Sphere", "area"): (Fraction(1), dict(_ball(Lin(1, 0)), r=Lin(1, -1), n=Lin(0, 1)), "n * pi^(n/2) / Gamma(n/2 + 1) * r^(n-1)"),
-}
-
-
-def rule_measures(run: Run, prog: Program) -> int:
-    run.rule("E12.measure", "the measure members of the round quadrics are the textbook monomials in pi, the radius and the dimension: "
-                            "Circle.area = pi r^2, Sphere.volume = pi^(n/2)/Gamma(n/2+1) r^n, Sphere.area = n pi^(n/2)/Gamma(n/2+1) r^(n-1)")
-    n_ob = 0
-    for (cname, member), (coef, factors, text) in MEASURES.items():
-        c = prog.find_cls(cname)
-        fn = prog.lookup(c, member) if c is not None else None
-        if fn is None:
-            run.add("E12.measure", f"{cname}.{member}", "formula", UNDECIDED, "member not found", c.loc if c else "")
-            continue
-        fn = prog.body_of(fn)
-        n_ob += 1
-        rets = [r for r in ast.walk(fn.node) if isinstance(r, ast.Return) and r.value is not None]
-        env = _local_defs(fn.node.body)
-        n_names = {k for k, v in env.items() if isinstance(v, ast.Attribute) and v.attr == "dim"}
-        env = {k: v for k, v in env.items() if k not in n_names}
-        loc = f"{fn.module.rel}:{rets[0].lineno}" if rets else fn.loc
-        if len(rets) != 1:
-            run.add("E12.measure", fn.short, "formula", UNDECIDED, f"{len(rets)} return statements", loc)
-            continue
-        try:
-            m = to_mono(rets[0].value, prog, fn, n_names, env)
-        except NotMonomial as e:
-            run.add("E12.measure", fn.short, "formula", UNDECIDED, f"not read as a monomial: {e}", loc)
-            continue
-        got_keys = {k: v.key() for k, v in m.factors.items()}
-        want_keys = {k: v.key() for k, v in factors.items()}
-        if got_keys == want_keys and m.coef == coef:
-            run.add("E12.measure", fn.short, "formula", PROVEN, f"= {text}", loc)
-        elif {k: v for k, v in got_keys.items() if "(" in k} == {k: v for k, v in want_keys.items() if "(" in k}:
-            # the transcendental building blocks (gamma / factorial terms) are the same: the rest is a monomial in pi, r and n and must agree exactly
-            run.add("E12.measure", fn.short, "formula", VIOLATION,
-                    f"{fn.short} returns {m.show()} but the textbook measure is {text}"
-                    + (f" (off by the factor {m.coef / coef})" if got_keys == want_keys else " (a factor or an exponent differs)"), loc)
-        elif {k: v for k, v in got_keys.items() if "(" not in k} == {k: v for k, v in want_keys.items() if "(" not in k} and m.coef == coef:
-            # everything but the gamma / factorial terms agrees: nothing is left that could compensate for a different gamma argument
-            run.add("E12.measure", fn.short, "formula", VIOLATION,
-                    f"{fn.short} returns {m.show()} but the textbook measure is {text} (the gamma / factorial term differs while all other factors agree)", loc)
-        else:
-            run.add("E12.measure", fn.short, "formula", UNDECIDED,
-                    f"written with other building blocks ({sorted(got_keys)}) than the reference form ({sorted(want_keys)}); equivalence not decided", loc)
-    return n_ob
-
-
-# ---------------------------------------------------------------------------------------------- closed-form roots (C20)
-class LP:
-    """Laurent polynomial with rational coefficients over named symbols: dict {((sym, exp), ...): coef}"""
-
-    def __init__(self, terms=None):
-        self.t = {k: v for k, v in (terms or {}).items() if v != 0}
-
-    @staticmethod
-    def const(c):
-        return LP({(): Fraction(c)})
-
-    @staticmethod
-    def sym(name):
-        return LP({((name, Fraction(1)),): Fraction(1)})
-
-    def __add__(self, o):
-        out = dict(self.t)
-        for k, v in o.t.items():
-            out[k] = out.get(k, 0) + v
-        return LP(out)
-
-    def __neg__(self):
-        return LP({k: -v for k, v in self.t.items()})
-
-    def __sub__(self, o):
-        return self + (-o)
-
-    def __mul__(self, o):
-        out: dict = {}
-        for k1, v1 in self.t.items():
-            for k2, v2 in o.t.items():
-                d = dict(k1)
-                for s_, e_ in k2:
-                    d[s_] = d.get(s_, 0) + e_
-                k = tuple(sorted((s_, e_) for s_, e_ in d.items() if e_ != 0))
-                out[k] = out.get(k, 0) + v1 * v2
-        return LP(out)
-
-    def inverse(self):
-        if len(self.t) != 1:
-            raise NotPolynomial("division by a sum")
-        (k, v), = self.t.items()
-        return LP({tuple(sorted((s_, -e_) for s_, e_ in k)): 1 / v})
-
-    def power(self, n: int):
-        out = LP.const(1)
-        base = self if n >= 0 else self.inverse()
-        for _ in range(abs(n)):
-            out = out * base
-        return out
-
-    def rewrite(self, rules: dict) -> "LP":
-        """rules: symbol -> (power p, LP value): sym**p is replaced by the value (sqrt and cube-root symbols)"""
-        cur = self
-        powers: dict = {}
-        for _ in range(12):
-            changed = False
-            acc: dict = {}
-            for k, v in cur.t.items():
-                rest = []
-                factor = None
-                for s_, e_ in k:
-                    if s_ in rules and e_ >= rules[s_][0] and e_.denominator == 1:
-                        p_, val = rules[s_]
-                        q, r = divmod(int(e_), p_)
-                        if q:
-                            changed = True
-                            key = (s_, q)
-                            if key not in powers:
-                                powers[key] = val.power(q)
-                            factor = powers[key] if factor is None else factor * powers[key]
-                            if r:
-                                rest.append((s_, Fraction(r)))
-                            continue
-                    rest.append((s_, e_))
-                if factor is None:
-                    acc[k] = acc.get(k, 0) + v
-                    continue
-                base = LP({tuple(rest): v})
-                for k2, v2 in (base * factor).t.items():
-                    acc[k2] = acc.get(k2, 0) + v2
-            cur = LP(acc)
-            if not changed:
-                break
-        return cur
-
-    def is_zero(self):
-        return self.a == 0 and self.b == 0
-
-    def __repr__(self):
-        parts = []
-        if self.a:
-            parts.append(("" if self.a == 1 else str(self.a) + "*") + "n")
-        if self.b or not parts:
-            parts.append(str(self.b))
-        return "+".join(parts).replace("+-", "-")
-
-
-def _lin(e: ast.AST, n_names: set[str]) -> Lin:
-    if isinstance(e, ast.Constant) and isinstance(e.value, (int, float)) and not isinstance(e.value, bool):
-        return Lin(0, Fraction(e.value).limit_denominator(1000))
-    if isinstance(e, ast.Name) and e.id in n_names:
-        return Lin(1, 0)
-    if isinstance(e, ast.Attribute) and e.attr == "dim":
-        return Lin(1, 0)
-    if isinstance(e, ast.UnaryOp) and isinstance(e.op, ast.USub):
-        return _lin(e.operand, n_names).scale(-1)
-    if isinstance(e, ast.BinOp):
-        if isinstance(e.op, ast.Add):
-            return _lin(e.left, n_names) + _lin(e.right, n_names)
-        if isinstance(e.op, ast.Sub):
-            return _lin(e.left, n_names) - _lin(e.right, n_names)
-        if isinstance(e.op, (ast.Mult, ast.Div)):
-            l, r = _lin(e.left, n_names), _lin(e.right, n_names)
-            if isinstance(e.op, ast.Div):
-                if r.a != 0 or r.b == 0:
-                    raise NotMonomial("division by a non-constant")
-                return l.scale(1 / r.b)
-            if l.a == 0:
-                return r.scale(l.b)
-            if r.a == 0:
-                return l.scale(r.b)
-    raise NotMonomial(f"`{ast.unparse(e)[:30]}` is not linear in the dimension")
-
-
-class Mono:
-    def __init__(self, coef=1, factors=None):
-        self.coef = Fraction(coef)
-        self.factors: dict[str, Lin] = dict(factors or {})
-
-    def mul(self, o: "Mono", sign: int = 1) -> "Mono":
-        out = Mono(self.coef * (o.coef if sign > 0 else 1 / o.coef), self.factors)
-        for k, v in o.factors.items():
-            nv = out.factors.get(k, Lin()) + v.scale(sign)
-            if nv.is_zero():
-                out.factors.pop(k, None)
-            else:
-                out.factors[k] = nv
-        return out
-
-    def power(self, ex: Lin) -> "Mono":
-        if self.coef != 1:
-            if ex.a != 0 or ex.b.denominator != 1:
-                raise NotMonomial("numeric factor under a symbolic power")
-            coef = self.coef ** int(ex.b)
-        else:
-            coef = Fraction(1)
-        return Mono(coef, {k: Lin(v.b * ex.a + v.a * ex.b, v.b * ex.b) if v.a == 0 or ex.a == 0 else (_ for _ in ()).throw(NotMonomial("n*n in an exponent"))
-                           for k, v in self.factors.items()})
-
-    def show(self) -> str:
-        return (str(self.coef) if self.coef != 1 or not self.factors else "") + " ".join(
-            (" " if i or self.coef != 1 else "") + f"{k}^({v})" for i, (k, v) in enumerate(sorted(self.factors.items()))).replace("  ", " ")
-
-
-def to_mono(e: ast.AST, prog: Program, fn: FunctionInfo, n_names: set[str], env: dict[str, ast.AST], depth: int = 0) -> Mono:
-    if depth > 8:
-        raise NotMonomial("too deep")
-    if isinstance(e, ast.Constant) and isinstance(e.value, (int, float)) and not isinstance(e.value, bool):
-        return Mono(Fraction(e.value).limit_denominator(10 ** 6))
-    if isinstance(e, ast.Attribute) and e.attr == "pi":
-        return Mono(1, {"pi": Lin(0, 1)})
-    if isinstance(e, ast.Attribute) and e.attr == "radius" and isinstance(e.value, ast.Name):
-        return Mono(1, {"r": Lin(0, 1)})
-    if isinstance(e, ast.Name) and e.id in n_names or isinstance(e, ast.Attribute) and e.attr == "dim":
-        return Mono(1, {"n": Lin(0, 1)})
-    if isinstance(e, ast.Name) and e.id in env:
-        return to_mono(env[e.id], prog, fn, n_names, env, depth + 1)
-    if isinstance(e, ast.UnaryOp) and isinstance(e.op, ast.UAdd):
-        return to_mono(e.operand, prog, fn, n_names, env, depth + 1)
-    if isinstance(e, ast.BinOp):
-        if isinstance(e.op, ast.Mult):
-            return to_mono(e.left, prog, fn, n_names, env, depth + 1).mul(to_mono(e.right, prog, fn, n_names, env, depth + 1))
-        if isinstance(e.op, ast.Div):
-            return to_mono(e.left, prog, fn, n_names, env, depth + 1).mul(to_mono(e.right, prog, fn, n_names, env, depth + 1), -1)
-        if isinstance(e.op, ast.Pow):
-            return to_mono(e.left, prog, fn, n_names, env, depth + 1).power(_lin(e.right, n_names))
-    if isinstance(e, ast.Call):
-        f = e.func
-        name = f.attr if isinstance(f, ast.Attribute) else getattr(f, "id", "")
-        if name == "gamma" and len(e.args) == 1:
-            return Mono(1, {f"gamma({_lin(e.args[0], n_names)})": Lin(0, 1)})
-        if name == "sqrt" and len(e.args) == 1:
-            return to_mono(e.args[0], prog, fn, n_names, env, depth + 1).power(Lin(0, Fraction(1, 2)))
-        if name == "factorial" and len(e.args) == 1:
-            return Mono(1, {f"factorial({_lin(e.args[0], n_names)})": Lin(0, 1)})
-        # a helper of the same class / module: inline its single return expression, parameters replaced by the arguments
-        tgt = None
-        if isinstance(f, ast.Attribute) and isinstance(f.value, ast.Name) and fn.cls is not None:
-            tgt = prog.lookup(fn.cls, f.attr)
-        elif isinstance(f, ast.Name):
-            q = prog.resolve_name(fn.module, f.id)
-            tgt = prog.functions.get(q) if q else None
-        if tgt is not None:
-            rets = [r for r in ast.walk(tgt.node) if isinstance(r, ast.Return) and r.value is not None]
-            params = [p.arg for p in tgt.params()]
-            if tgt.cls is not None and not tgt.is_staticmethod and params:
-                params = params[1:]
-            if len(rets) == 1 and len(params) == len(e.args) and all(isinstance(a, (ast.Name, ast.Attribute)) for a in e.args):
-                # only the dimension may be passed on
-                sub_n = {p for p, a in zip(params, e.args) if (isinstance(a, ast.Name) and a.id in n_names) or (isinstance(a, ast.Attribute) and a.attr == "dim")}
-                if len(sub_n) == len(params):
-                    return to_mono(rets[0].value, prog, tgt, sub_n, {}, depth + 1)
+                    return to_mono(rets[0].value, prog, tgt, sub_n, {k_: v_ for k_, v_ in _local_defs(tgt.node.body).items() if k_ not in sub_n}, depth + 1)
     raise NotMonomial(f"`{ast.unparse(e)[:40]}` is not a product of powers of pi, the radius and the dimension")
 
 
